@@ -818,6 +818,7 @@ func (f *frame) execBlock(b *ssa.BasicBlock, in string, st *State) {
 			f.outSt[b] = st
 			return
 		case *ssa.Return:
+			f.checkAsserts(ins, in, st)
 			f.runDefers(in, st)
 			var vs []Val
 			for _, r := range x.Results {
